@@ -208,6 +208,8 @@ var (
 	catOnce   sync.Once
 	catalogue []namedPt
 	smallG    []pt // smallG[k] = [k]G, k = 0..maxSmall
+	catClasses []string         // class names in order of first appearance
+	catByClass map[string][]int // indices into catalogue
 	catErr    error
 )
 
@@ -229,6 +231,13 @@ func buildCatalogue() {
 			if !C.OnCurve(p) {
 				catErr = fmt.Errorf("catalogue point %s is not on the curve", name)
 			}
+			if catByClass == nil {
+				catByClass = map[string][]int{}
+			}
+			if _, seen := catByClass[class]; !seen {
+				catClasses = append(catClasses, class)
+			}
+			catByClass[class] = append(catByClass[class], len(catalogue))
 			catalogue = append(catalogue, namedPt{name, class, p})
 		}
 		add("inf", "pt-infinity", ref.Infinity())
@@ -287,6 +296,31 @@ func buildCatalogue() {
 						break
 					}
 				}
+			}
+		}
+		// points whose x in the Montgomery domain (x*2^256 mod p, the value the
+		// assembly computes on) sits at a 32/64-bit limb boundary
+		limb := func(l3, l2, l1, l0 uint64) *big.Int { return limbsValue([]uint64{l0, l1, l2, l3}) }
+		for _, mb := range []struct {
+			name string
+			s    *big.Int
+		}{
+			{"2^31", pw(31)}, {"2^63", pw(63)}, {"2^63+2^31", new(big.Int).Add(pw(63), pw(31))}, {"2^95", pw(95)},
+			{"2^127", pw(127)}, {"2^191", pw(191)}, {"2^255", pw(255)},
+			{"limbs(2^63,2^63,2^63,2^63)", limb(1<<63, 1<<63, 1<<63, 1<<63)},
+			{"limbs(2^31,2^31,2^31,2^31)", limb(1<<31, 1<<31, 1<<31, 1<<31)},
+			{"limbs(0,2^64-1,0,2^64-1)", limb(0, ^uint64(0), 0, ^uint64(0))},
+			{"limbs(2^63,0,0,2^63)", limb(1<<63, 0, 0, 1<<63)},
+		} {
+			s := new(big.Int).Set(mb.s)
+			for tries := 0; tries < 200; tries++ {
+				if q, ok := C.LiftX(montStructured(s, p), 0); ok {
+					d := new(big.Int).Sub(s, mb.s)
+					add(fmt.Sprintf("xR=%s%+d,y even", mb.name, d), "pt-montgomery-x-at-limb-boundary", q)
+					add(fmt.Sprintf("xR=%s%+d,y odd", mb.name, d), "pt-montgomery-x-at-limb-boundary", C.Neg(q))
+					break
+				}
+				s.Add(s, one)
 			}
 		}
 		// smallest y (and, by negation, largest y) on the curve: roots of
